@@ -360,6 +360,30 @@ class Interp:
 
     ev_List = ev_Tuple
 
+    def ev_GeneratorExp(self, e):
+        if len(e.generators) != 1 or e.generators[0].ifs or not isinstance(e.generators[0].target, ast.Name):
+            self.incomplete(e, 'comprehension form')
+        it = self.ev(e.generators[0].iter)
+        if isinstance(it, tuple) and it and it[0] == 'shape':
+            items = [shape_sym(it[1].name, 0), shape_sym(it[1].name, 1)]
+        elif isinstance(it, TupleV):
+            items = it.items
+        else:
+            self.incomplete(e, 'comprehension over a non-tuple')
+        out = []
+        tv = e.generators[0].target.id
+        saved = self.env.get(tv)
+        for x in items:
+            self.env[tv] = x
+            out.append(self.ev(e.elt))
+        if saved is None:
+            self.env.pop(tv, None)
+        else:
+            self.env[tv] = saved
+        return TupleV(out)
+
+    ev_ListComp = ev_GeneratorExp
+
     def ev_UnaryOp(self, e):
         v = self.ev(e.operand)
         if isinstance(e.op, ast.USub):
